@@ -120,7 +120,7 @@ func c13(c *Ctx) {
 			return nil
 		}
 		set := map[uint64]bool{}
-		for _, b := range fn.Blocks {
+		for _, b := range blocksWithCallees(fn) {
 			for _, in := range b.Instrs {
 				bo, ok := in.(*ssa.BinOp)
 				if !ok || (bo.Op != token.EQL && bo.Op != token.NEQ) {
@@ -153,7 +153,7 @@ func c13(c *Ctx) {
 	// layer split compares both ids
 	if fn := p.Func("codecs.(*AV1Payloader).Payload"); fn != nil {
 		cmpd := map[string]bool{}
-		for _, b := range fn.Blocks {
+		for _, b := range blocksWithCallees(fn) {
 			for _, in := range b.Instrs {
 				bo, ok := in.(*ssa.BinOp)
 				if !ok || bo.Op != token.NEQ {
@@ -183,6 +183,35 @@ func c13(c *Ctx) {
 		}
 	}
 	boundsFor(c, "C13", entries)
+}
+
+// blocksWithCallees: the blocks of fn, of its closures and of the functions of the same package it
+// calls statically (transitively): a test moved into a helper is still the function's test.
+func blocksWithCallees(fn *ssa.Function) []*ssa.BasicBlock {
+	var out []*ssa.BasicBlock
+	seen := map[*ssa.Function]bool{}
+	var visit func(f *ssa.Function)
+	visit = func(f *ssa.Function) {
+		if f == nil || seen[f] || len(f.Blocks) == 0 {
+			return
+		}
+		seen[f] = true
+		out = append(out, f.Blocks...)
+		for _, an := range f.AnonFuncs {
+			visit(an)
+		}
+		for _, b := range f.Blocks {
+			for _, in := range b.Instrs {
+				if call, ok := in.(ssa.CallInstruction); ok {
+					if g := call.Common().StaticCallee(); g != nil && g.Pkg != nil && fn.Pkg != nil && g.Pkg == fn.Pkg {
+						visit(g)
+					}
+				}
+			}
+		}
+	}
+	visit(fn)
+	return out
 }
 
 func loadedField(v ssa.Value) string {
